@@ -99,7 +99,7 @@ def FP(case, reason):
 
 def run(rep, tier, seed, module="MC_C01", pid="C01"):
     N = 2 if tier == "quick" else 3
-    cases = loadcheck.explore(rep, module, N, emit=False, invariants=["RoundTrip", "Stationary", "SecondGeneration"], props=[],
+    cases = loadcheck.explore(rep, module, N, emit=False, invariants=["RoundTrip", "Stationary", "SecondGeneration"], props=[], prelude="Pre",
                               extra_consts="CONSTRAINT EmitRT\n", label="%s scripts up to %d items: Load o Serialize round trip, stationarity" % (module, N))
     for c in cases:
         c["gens"] = GENS[tier]
